@@ -179,6 +179,7 @@ var c02Dangerous = []string{
 	"javascript:alert(1)", "JaVaScRiPt:alert(1)", "java\tscript:alert(1)", "java\nscript:x", "java\rscript:x", " javascript:x", "\x01javascript:x",
 	"\x1fjavascript:x", "javascript\t:x", "javascript&colon;x", "javascript&#58;x", "&#106;avascript:x", "javascript&#x3a;x", "jav&#x09;ascript:x",
 	"jav&Tab;ascript:x", "\tjavascript:x", " javascript:x", "javascript:x//", "\x00javascript:x", "javascript\x00:x",
+	"javascript://h.example/%0Aalert(1)", "JAVASCRIPT://h/p?q#f",
 	// srcset shapes: every ASCII whitespace / comma / descriptor position around a javascript: candidate
 	"/a,\fjavascript:x", "/a \tjavascript:x", "/a 1x,javascript:x", "javascript:x 1x", "/a\f1x,javascript:x", "/a\rjavascript:x", ",javascript:x", "/a ,\njavascript:x 2x",
 }
